@@ -46,3 +46,8 @@ Fixpoint tterms_of (e : eqn) : option (list tterm) :=
   | [] => Some []
   | t :: r => match tterm_of t, tterms_of r with Some x, Some xs => Some (x :: xs) | _, _ => None end
   end.
+
+(** the temperature row is wrapped:  f"(gamma - 1.0) * ( {rhs} ) / kerg / npar" *)
+Definition wrap_pre_txt : txt := tx "(gamma - 1.0) * ( ".
+Definition wrap_post_txt : txt := tx " ) / kerg / npar".
+Definition wrapped_txt (ts : list tterm) : txt := (wrap_pre_txt ++ rhs_txt ts ++ wrap_post_txt)%list.
